@@ -82,6 +82,11 @@ func (m *ServiceMap) ServiceForRequest(req *http.Request) (*Service, string) {
 		splitHost, _, err := net.SplitHostPort(host)
 		if err == nil {
 			host = splitHost
+			if strings.Contains(host, ":") {
+				// An IPv6 literal: keep the brackets, so that the host is the
+				// same with and without a port.
+				host = "[" + host + "]"
+			}
 		}
 	}
 
